@@ -55,6 +55,7 @@ static void* w_alloc(size_t dim){
 static int w_apply(void* st,size_t dim,double t,double h,double y[],double yerr[],const double dydt_in[],double dydt_out[],const gsl_odeiv2_system* sys){
   WrapState* w=(WrapState*)st; RunCtx& c=*g_ctx;
   w->orig=sys; c.napply++; g_last_apply_y=y;
+  { int sc0=verif::alloc_in_scope(); verif::alloc_scope(0); c.last_apply_t=t; c.last_apply_y.assign(y,y+dim); c.have_last_apply=true; verif::alloc_scope(sc0); }
   // a retryable failure makes the evolve loop halve h: only meaningful while h can still shrink
   if(c.fail_budget>0 && std::fabs(h)>1e-9){ c.fail_budget--; c.failures_fired++; return GSL_FAILURE; }
   // the evolve-level evaluation that produced dydt_in did not pass through the proxy: check it now, y is still intact
@@ -104,6 +105,7 @@ static void* s_alloc(size_t dim){
 static int s_apply(void* st,size_t dim,double t,double h,double y[],double yerr[],const double dydt_in[],double dydt_out[],const gsl_odeiv2_system* sys){
   SimState* s=(SimState*)st; RunCtx& c=*g_ctx; const Tableau& T=tableaux[s->tableau];
   c.napply++; s->applies++; g_last_apply_y=y;
+  { int sc0=verif::alloc_in_scope(); verif::alloc_scope(0); c.last_apply_t=t; c.last_apply_y.assign(y,y+dim); c.have_last_apply=true; verif::alloc_scope(sc0); }
   if(c.hard_fail_at>0 && c.napply>=c.hard_fail_at){ c.hard_fail_at=-1; return GSL_EBADFUNC; }
   if(c.fail_budget>0 && std::fabs(h)>1e-9){ c.fail_budget--; c.failures_fired++; return GSL_FAILURE; }
   double* k[4]; double* ytmp;
